@@ -1,4 +1,4 @@
-import D2V.Proofs.QuoteCI
+import D2V.Proofs.QuoteEdge
 /-!
   C06 — Object and connection IDs are valid, unambiguous key paths (the part that is provable over the quoting
   model: the absolute ID of an object is its chain of names, each formatted as a key segment and joined with ".").
@@ -13,6 +13,11 @@ import D2V.Proofs.QuoteCI
   * `objID_parses`            the ID of an object parses to its name (one segment).
   * `absID_injective_ci`      absolute IDs equal after lower-casing consist of the same lower-cased IDs level by
                               level (with C09's invariant "siblings differ after lower-casing": the same object).
+  * `edgeID_parses`           Edge.AbsID parses back with the model of ParseMapKey (`parseEdgeID`, compared with the
+                              real one on every connection and on edge-like texts) to container / source / arrows /
+                              destination / index;
+  * `edgeID_unique`           equal connection IDs imply the same source chain, arrows, index and destination chain
+                              (up to the case of the shared container IDs, which are pairwise EqualFold).
   The `_partial` / `keyFixApplied` variants instantiate `NameOk`.
 -/
 namespace D2V.Quote
@@ -127,6 +132,60 @@ theorem C06_absIDs_distinct_ignoring_case (hfix : keyFixApplied = true) (low : C
     (absID a).map low ≠ (absID b).map low :=
   fun h => hne (absID_injective_ci low hlow a b (fun n hn => nameOk_of_fix hfix (hla n hn))
     (fun n hn => nameOk_of_fix hfix (hlb n hn)) h)
+
+/-! ### connection IDs -/
+
+/-- the ID of a connection parses back (model of ParseMapKey) to its container, source, arrows, destination and
+    index: `k` leading IDs are shared (pairwise EqualFold, `Edge.AbsID`'s loop), the source is container ++ its own
+    remainder, the destination's remainder follows the same container -/
+theorem edgeID_parses (srcNames dstNames : List Str) (hs : srcNames ≠ []) (hd : dstNames ≠ [])
+    (hoks : ∀ n ∈ srcNames, NameOk n) (hokd : ∀ n ∈ dstNames, NameOk n) (sa da : Bool) (idx : Nat) :
+    ∃ k csegs ssegs dsegs, k < srcNames.length ∧ k < dstNames.length ∧
+      csegs.map (·.val) = srcNames.take k ∧ ssegs.map (·.val) = srcNames.drop k ∧ dsegs.map (·.val) = dstNames.drop k ∧
+      (∀ i, i < k → ∀ x y, srcNames[i]? = some x → dstNames[i]? = some y → equalFoldIds (objID x) (objID y) = true) ∧
+      parseEdgeID (edgeAbsID (srcNames.map objID) (dstNames.map objID) sa da idx) = .ok csegs ssegs dsegs sa da idx [] := by
+  obtain ⟨k, h1, h2, h3, h4, h5, h6⟩ := trimCommon_spec (srcNames.map objID) (dstNames.map objID) (by simpa using hs) (by simpa using hd)
+  have hk1 : k < srcNames.length := by simpa using h1
+  have hk2 : k < dstNames.length := by simpa using h2
+  rw [edgeAbsID_eq_edgeText, h3, h4, h5, ← List.map_take, ← List.map_drop, ← List.map_drop]
+  obtain ⟨cs, ss, ds, e1, e2, e3, hp⟩ := parseEdgeID_edgeText
+    (segTexts_of_names (srcNames.take k) (fun n hn => hoks n (List.mem_of_mem_take hn)))
+    (segTexts_of_names (srcNames.drop k) (fun n hn => hoks n (List.mem_of_mem_drop hn)))
+    (segTexts_of_names (dstNames.drop k) (fun n hn => hokd n (List.mem_of_mem_drop hn)))
+    (by intro h; have := congrArg List.length h; simp at this; omega)
+    (by intro h; have := congrArg List.length h; simp at this; omega)
+    (fun n hn => (hoks n (List.mem_of_mem_take hn)).1) (fun n hn => (hoks n (List.mem_of_mem_drop hn)).1)
+    (fun n hn => (hokd n (List.mem_of_mem_drop hn)).1) sa da idx
+  refine ⟨k, cs, ss, ds, hk1, hk2, e1, e2, e3, ?_, hp⟩
+  intro i hi x y hx hy
+  exact h6 i hi (objID x) (objID y) (by simp [hx]) (by simp [hy])
+
+/-- a connection ID identifies its connection: equal IDs mean the same source chain, arrows and index, and
+    destination chains that differ at most in the case of the shared container IDs -/
+theorem edgeID_unique (s1 d1 s2 d2 : List Str) (hs1 : s1 ≠ []) (hd1 : d1 ≠ []) (hs2 : s2 ≠ []) (hd2 : d2 ≠ [])
+    (hok : ∀ n ∈ s1 ++ d1 ++ s2 ++ d2, NameOk n) (a1 b1 a2 b2 : Bool) (i1 i2 : Nat)
+    (heq : edgeAbsID (s1.map objID) (d1.map objID) a1 b1 i1 = edgeAbsID (s2.map objID) (d2.map objID) a2 b2 i2) :
+    s1 = s2 ∧ a1 = a2 ∧ b1 = b2 ∧ i1 = i2 ∧ ∃ k, k < d1.length ∧ k < d2.length ∧ d1.drop k = d2.drop k ∧
+      ∀ i, i < k → ∀ x y, d1[i]? = some x → d2[i]? = some y →
+        ∃ z, s1[i]? = some z ∧ equalFoldIds (objID z) (objID x) = true ∧ equalFoldIds (objID z) (objID y) = true := by
+  obtain ⟨k1, c1, ss1, ds1, hk1, hk1', e1, e2, e3, f1, p1⟩ := edgeID_parses s1 d1 hs1 hd1
+    (fun n hn => hok n (by simp [hn])) (fun n hn => hok n (by simp [hn])) a1 b1 i1
+  obtain ⟨k2, c2, ss2, ds2, hk2, hk2', g1, g2, g3, f2, p2⟩ := edgeID_parses s2 d2 hs2 hd2
+    (fun n hn => hok n (by simp [hn])) (fun n hn => hok n (by simp [hn])) a2 b2 i2
+  rw [heq, p2] at p1
+  injection p1 with hc hs hd ha hb hi _
+  subst hc; subst hs; subst hd
+  have hkk : k1 = k2 := by
+    have := congrArg List.length (e1.symm.trans g1)
+    simp at this; omega
+  subst hkk
+  have hss : s1 = s2 := by
+    rw [← List.take_append_drop k1 s1, ← List.take_append_drop k1 s2, ← e1, ← e2, g1, g2]
+  subst hss
+  refine ⟨rfl, ha.symm, hb.symm, hi.symm, k1, hk1', hk2', by rw [← e3, g3], ?_⟩
+  intro i hi' x y hx hy
+  have hlt : i < s1.length := by omega
+  refine ⟨s1[i], by simp [hlt], f1 i hi' _ _ (by simp [hlt]) hx, f2 i hi' _ _ (by simp [hlt]) hy⟩
 
 /-- `LowOk` is satisfiable -/
 example : LowOk id := ⟨fun _ _ => rfl, fun _ h => h, fun _ => rfl, rfl⟩
